@@ -341,6 +341,10 @@ func (x *Exec) unknownCall(st *State, fr *Frame, dst ssa.Value, c *ssa.CallCommo
 				st.Heap["G$"+name] = Store(arr, k, t)
 			}
 		}
+		if method != "" && fv.Term != nil {
+			arr := st.heapGet("G$rcv$"+label, ArrSort(SInt, SInt))
+			st.Heap["G$rcv$"+label] = Store(arr, k, fv.Term)
+		}
 		st.setGhost("calls$"+label, Add(k, IntLit(1)))
 	}
 	if strings.HasPrefix(strings.TrimSpace(behaviour), "function ") {
@@ -1003,7 +1007,7 @@ func (x *Exec) frameObls(st *State, items []modItem, oldHeap map[string]*Term, o
 		if cur == old {
 			continue
 		}
-		if f == "G$alloc" || f == "G$wgmine" || strings.HasPrefix(f, "G$recv") || strings.HasPrefix(f, "G$sen") || strings.HasPrefix(f, "G$spawn") || strings.HasPrefix(f, "G$jsondecoded") || strings.HasPrefix(f, "G$protodecoded") || strings.HasPrefix(f, "G$panicval") || strings.HasPrefix(f, "G$sret$") || strings.HasPrefix(f, "G$sarg$") || strings.HasPrefix(f, "G$cancelled") || strings.HasPrefix(f, "G$ncalls$") || strings.HasPrefix(f, "G$calls$") || strings.HasPrefix(f, "G$arg$") || strings.HasPrefix(f, "G$ret$") || strings.HasPrefix(f, "G$panicked$") || strings.HasPrefix(f, "G$visited$") || strings.HasPrefix(f, "G$spawned") {
+		if f == "G$alloc" || f == "G$wgmine" || strings.HasPrefix(f, "G$recv") || strings.HasPrefix(f, "G$rcv$") || strings.HasPrefix(f, "G$sen") || strings.HasPrefix(f, "G$spawn") || strings.HasPrefix(f, "G$jsondecoded") || strings.HasPrefix(f, "G$protodecoded") || strings.HasPrefix(f, "G$panicval") || strings.HasPrefix(f, "G$sret$") || strings.HasPrefix(f, "G$sarg$") || strings.HasPrefix(f, "G$cancelled") || strings.HasPrefix(f, "G$ncalls$") || strings.HasPrefix(f, "G$calls$") || strings.HasPrefix(f, "G$arg$") || strings.HasPrefix(f, "G$ret$") || strings.HasPrefix(f, "G$panicked$") || strings.HasPrefix(f, "G$visited$") || strings.HasPrefix(f, "G$spawned") {
 			continue
 		}
 		if x.V.isShared(f) {
@@ -1320,7 +1324,7 @@ func (x *Exec) havocLoopImpl(st *State, fr *Frame, l *Loop, cellsOnly bool) {
 		if all {
 			keep["G$alloc"] = true
 			for _, n := range st.heapNames() {
-				if strings.HasPrefix(n, "G$calls$") || strings.HasPrefix(n, "G$arg$") || strings.HasPrefix(n, "G$ret$") || strings.HasPrefix(n, "G$panicked$") || strings.HasPrefix(n, "G$spawn") || strings.HasPrefix(n, "G$sent$") || strings.HasPrefix(n, "G$sends$") || strings.HasPrefix(n, "G$recv") {
+				if strings.HasPrefix(n, "G$calls$") || strings.HasPrefix(n, "G$rcv$") || strings.HasPrefix(n, "G$arg$") || strings.HasPrefix(n, "G$ret$") || strings.HasPrefix(n, "G$panicked$") || strings.HasPrefix(n, "G$spawn") || strings.HasPrefix(n, "G$sent$") || strings.HasPrefix(n, "G$sends$") || strings.HasPrefix(n, "G$recv") {
 					keep[n] = true
 				}
 			}
@@ -1404,7 +1408,7 @@ func (x *Exec) sharedFamilies(st *State, fams map[string]bool) {
 	// ghost logs move; monitor-guarded state and channel/waitgroup ghost state change only by
 	// interference (applied once at the loop head, respecting held locks and thread-local objects)
 	for _, n := range st.heapNames() {
-		if strings.HasPrefix(n, "G$calls$") || strings.HasPrefix(n, "G$arg$") || strings.HasPrefix(n, "G$ret$") || strings.HasPrefix(n, "G$panicked$") || strings.HasPrefix(n, "G$panicval$") || strings.HasPrefix(n, "G$ncalls$") || strings.HasPrefix(n, "G$spawn") || strings.HasPrefix(n, "G$sen") || strings.HasPrefix(n, "G$recv") {
+		if strings.HasPrefix(n, "G$calls$") || strings.HasPrefix(n, "G$rcv$") || strings.HasPrefix(n, "G$arg$") || strings.HasPrefix(n, "G$ret$") || strings.HasPrefix(n, "G$panicked$") || strings.HasPrefix(n, "G$panicval$") || strings.HasPrefix(n, "G$ncalls$") || strings.HasPrefix(n, "G$spawn") || strings.HasPrefix(n, "G$sen") || strings.HasPrefix(n, "G$recv") {
 			fams[n] = true
 		}
 	}
